@@ -169,7 +169,7 @@ def gen_laws(rng, n):
             for _ in range(rng.randint(1, 3)):
                 history.append({"target": rng.choice(["A", "A", "B", "X"]), "how": rng.choice(["item", "item", "slice", "ellipsis"])})
         yield {"op": "laws", "kind": kind, "cx": cx, "shape": shape, "tshape": ts, "n": rng.choice([2, 2, 3, 4]), "seed": rng.randrange(10 ** 9),
-               "history": history}
+               "history": history, "identity": c // 3}
 
 
 def run_laws(inp):
@@ -224,8 +224,43 @@ def run_laws(inp):
     if type(AB) is not type(B) or tuple(AB.shape) != tuple(np.broadcast_shapes(tuple(A.shape), tuple(B.shape))):
         bad.append({"what": "compose:type/shape", "got": [type(AB).__name__, list(AB.shape)]})
     cmp("assoc", AB @ X, A @ (B @ X))
-    I = (H.identity(n) if not cx and kind != "simplex" else P.Transformation(np.identity(n + 1)))
+    hyp = not cx and kind != "simplex"
+    src = inp.get("identity", 0) % 4
+    if src == 0:
+        I = H.identity(n) if hyp else P.identity(n)
+    elif src == 1:
+        rep0 = H.HyperbolicRepresentation() if hyp else P.ProjectiveRepresentation()
+        rep0["a"] = O.isometries(g, [], n) if hyp else O.invertibles(g, [], n, cx)
+        I = rep0[""]
+    elif src == 2:
+        I = H.Isometry.standard_rotation(0.0, dimension=n) if hyp else P.Transformation(np.identity(n + 1))
+    else:
+        I = (H.Isometry if hyp else P.Transformation)(np.identity(n + 1))
     cmp("identity", I @ X, (x0, a0))
+    # an image is an object of its own: editing it in place must not reach back into X (nor into images computed earlier)
+    earlier = A @ X
+    e0 = np.array(earlier.proj_data)
+    for nm, img in (("identity", I @ X), ("A", A @ X), ("AB", (A @ B) @ X)):
+        try:
+            shp = tuple(img.shape)
+            other = O.mk(kind, g, shp, n, cx)
+            if shp and g.random() < 0.6:
+                img[int(g.integers(0, shp[0]))] = np.array(other.proj_data[0])
+            else:
+                img[...] = np.array(other.proj_data)
+        except Exception as e:
+            bad.append({"what": "edit_image_raised", "image": nm, "exc": type(e).__name__, "msg": str(e)[:100]})
+            continue
+        if not np.array_equal(np.array(X.proj_data), x0) or (a0 is not None and not np.array_equal(np.array(X.aux_data), a0)):
+            bad.append({"what": "editing_image_changed_original", "image": nm + " @ X", "identity_source": ["identity()", "rep['']", "standard_rotation(0)", "Cls(eye)"][src],
+                        "expected": "X unchanged after an in-place edit of T @ X"})
+            break
+        if not np.array_equal(np.array(earlier.proj_data), e0):
+            bad.append({"what": "editing_image_changed_earlier_image", "image": nm})
+            break
+        if X.aux_data is not None and not O.aux_proj_eq(kind, X.aux_data, type(X)(np.array(X.proj_data)).aux_data, 1e-6):
+            bad.append({"what": "original_aux_stale_after_editing_image", "image": nm})
+            break
     cmp("inverse", A.inv() @ (A @ X), (x0, a0))
     cmp("inverse2", A @ (A.inv() @ X), (x0, a0))
     Ai = A.inv()
@@ -254,7 +289,8 @@ def gen_rep(rng, n):
         aut = {str(v): {l: rng.randrange(nst) for l in "abAB" if rng.random() < 0.6} for v in range(nst)}
         yield {"op": "rep", "n": rng.choice([2, 3]), "seed": rng.randrange(10 ** 9), "hyp": c % 2 == 0,
                "words": ["".join(rng.choice("abAB") for _ in range(rng.randint(0, 7))) for _ in range(3)], "shape": rng.choice(O.SHAPES[:7]),
-               "automaton": aut, "length": rng.choice([2, 3, 3, 4])}
+               "automaton": aut, "length": rng.choice([2, 3, 3, 4]),
+               "mixed": None if c % 3 else {"int": rng.choice("ab"), "order": rng.choice(["ab", "ba"]), "dtype": rng.choice(["int", "int", "int32", "float32"])}}
 
 
 def run_rep(inp):
@@ -269,9 +305,26 @@ def run_rep(inp):
         rep = P.ProjectiveRepresentation()
         gens = {k: O.invertibles(g, [], n) for k in "ab"}
         pts = P.Point(g.normal(size=tuple(inp["shape"]) + (n + 1,)))
-    for k, T in gens.items():
-        rep[k] = T
-    col = {k: np.array(T.matrix).T for k, T in gens.items()}          # the matrix acting on columns
+    mixed = inp.get("mixed")
+    if mixed:
+        # generators of mixed dtype (one with integer entries and integer dtype), assigned in either order
+        Tcls = H.Isometry if inp["hyp"] else P.Transformation
+        if inp["hyp"]:
+            M = np.identity(n + 1, dtype=np.int64)
+            i, j = 1, 2
+            M[i, i], M[i, j], M[j, i], M[j, j] = 0, -1, 1, 0             # a quarter turn: an isometry with integer entries
+        else:
+            M = np.identity(n + 1, dtype=np.int64)
+            M[0, 1], M[1, 2 % (n + 1)] = 2, -1                            # unimodular
+            M[2 % (n + 1), 0] += 1
+        which = mixed["int"]
+        gens[which] = Tcls(M.astype({"int": np.int64, "int32": np.int32, "float32": np.float32}[mixed["dtype"]]))
+        order = list(mixed["order"])
+    else:
+        order = list(gens)
+    for k in order:
+        rep[k] = gens[k]
+    col = {k: np.array(T.matrix, dtype=float).T for k, T in gens.items()}          # the matrix acting on columns
     col.update({k.upper(): np.linalg.inv(M) for k, M in list(col.items())})
 
     def colmat(w):
@@ -290,6 +343,14 @@ def run_rep(inp):
             bad.append({"what": "type/shape", "word": w})
         elif not O.rows_proj_eq(R.proj_data, want, 1e-7) or not O.allclose(R.proj_data, want, 1e-6):
             bad.append({"what": "word_action", "word": w, "expected": "rep[w] @ p = (matrix of w) . (column p)"})
+    # the batched APIs return, word by word, the single-word image
+    batched = [("elements", rep.elements(inp["words"]))]
+    batched.append(("isometries", rep.isometries(inp["words"])) if inp["hyp"] else ("transformations", rep.transformations(inp["words"])))
+    for nm, E in batched:
+        for j, w in enumerate(inp["words"]):
+            if not O.allclose(np.array(E.matrix, dtype=float)[j], np.array(rep[w].matrix, dtype=float), 1e-9):
+                bad.append({"what": "batched_vs_single", "api": nm, "word": w, "expected": "rep.%s(words)[j] = rep[words[j]]" % nm})
+                break
     u, v = inp["words"][0], inp["words"][1]
     if not O.allclose((rep[u] @ rep[v]).matrix, rep[u + v].matrix, 1e-6):
         bad.append({"what": "rep[u]@rep[v] != rep[uv]", "u": u, "v": v})
@@ -346,7 +407,83 @@ def run_rep(inp):
     return {"bad": bad}
 
 
+# ------------------------------------------------------------------ oracle: the action is the geometric one (incidence is preserved)
+def gen_inc(rng, n):
+    for c in range(n):
+        yield {"op": "incidence", "kind": ["hyperplane", "dualpoint", "subspace", "geodesic", "convexpolygon", "convexpolygon"][c % 6],
+               "shape": rng.choice(O.SHAPES[:6]), "n": rng.choice([2, 3]), "seed": rng.randrange(10 ** 9)}
+
+
+def run_inc(inp):
+    g = O.G(inp["seed"])
+    kind, n, shape = inp["kind"], inp["n"], tuple(inp["shape"])
+    bad = []
+    J = np.diag([-1.0] + [1.0] * n)
+    if kind == "convexpolygon":
+        # the one class with dual data: a functional f (the chart is the complement of the hyperplane f.w = 0); any invertible A
+        verts = np.concatenate([np.ones((5, 1)), O.klein(g, (5,), n)], axis=-1)
+        f = np.concatenate([[1.0], g.uniform(-0.3, 0.3, n)])
+        X = P.ConvexPolygon(verts, dual_data=f)
+        A, B = O.invertibles(g, [], n), O.invertibles(g, [], n)
+        # points of the dual hyperplane: a basis of the kernel of f
+        W = np.concatenate([-f[1:, None] / f[0], np.identity(n)], axis=1)
+        Y = A @ X
+        if type(Y) is not type(X) or Y.dual_data is None:
+            bad.append({"what": "dual:type"})
+        else:
+            img = W @ np.array(A.matrix)
+            if np.abs(img @ np.array(Y.dual_data)).max() > 1e-7 * (1 + np.abs(img).max() * np.abs(Y.dual_data).max()):
+                bad.append({"what": "dual_incidence", "expected": "the image functional vanishes on the images of the points of the dual hyperplane"})
+            sg = np.sign(np.array(Y.proj_data) @ np.array(Y.dual_data))
+            if not (np.all(sg > 0) or np.all(sg < 0)):
+                bad.append({"what": "dual_chart", "expected": "all image vertices on one side of the image hyperplane"})
+            L, R = (A @ B) @ X, A @ (B @ X)
+            if not (O.rows_proj_eq(L.dual_data, R.dual_data, 1e-7) and O.rows_proj_eq(L.proj_data, R.proj_data, 1e-7) and O.rows_proj_eq(L.aux_data, R.aux_data, 1e-7)):
+                bad.append({"what": "dual_assoc"})
+            Z = A.inv() @ (A @ X)
+            if not (O.rows_proj_eq(Z.dual_data, f, 1e-7) and O.rows_proj_eq(Z.proj_data, verts, 1e-7)):
+                bad.append({"what": "dual_inverse"})
+        return {"bad": bad}
+    A = O.isometries(g, [] if g.random() < 0.5 else shape, n)
+    if kind in ("hyperplane", "dualpoint"):
+        X = O.mk("hyperplane", g, shape, n)
+        nrm = np.array(X.spacelike_vector)
+        pts = np.array(X.ideal_basis)                  # points of the hyperplane
+        if kind == "dualpoint":
+            X = H.DualPoint(nrm.copy())
+        Y = A @ X
+        # images of the points, unit by unit
+        Am = np.broadcast_to(np.array(A.matrix), shape + (n + 1, n + 1))
+        img = np.einsum("...kj,...ji->...ki", pts, Am)
+        nrm2 = np.array(Y.spacelike_vector) if kind == "hyperplane" else np.array(Y.proj_data)
+        inc = np.einsum("...ki,ij,...j->...k", img, J, nrm2)
+        if np.abs(inc).max() > 1e-7:
+            bad.append({"what": "normal_incidence", "expected": "the image normal is Minkowski-orthogonal to the images of the points of the hyperplane"})
+        if kind == "hyperplane" and np.abs(np.einsum("...ki,ij,...j->...k", np.array(Y.ideal_basis), J, nrm2)).max() > 1e-7:
+            bad.append({"what": "image_not_a_hyperplane"})
+    else:
+        # the image of the span is the span of the images: a point on the line through the two rows stays on the image's line
+        X = O.mk(kind, g, shape, n)
+        d = np.array(X.proj_data)
+        lam = g.uniform(0.2, 0.8, shape + (1,))
+        w = lam * d[..., 0, :] + (1 - lam) * d[..., 1, :]
+        Am = np.broadcast_to(np.array(A.matrix), shape + (n + 1, n + 1))
+        wi = np.einsum("...j,...ji->...i", w, Am)
+        Y = np.array((A @ X).proj_data)
+        for idx in np.ndindex(*shape):
+            M = np.vstack([Y[idx][:2], wi[idx]])
+            if np.linalg.matrix_rank(M, tol=1e-8) > 2:
+                bad.append({"what": "span_incidence", "idx": list(idx)})
+                break
+    return {"bad": bad}
+
+
 CLAUSES = [
+    Clause("incidence", "oracle", gen_inc, run_inc, O.judge_bad, site="projective.Transformation.apply (dual / normal data)",
+           budget={"quick": 180, "thorough": 3000},
+           what="the action is the geometric one: A@Hyperplane / A@DualPoint is Minkowski-orthogonal to the images of the points of the original hyperplane, A@Subspace / A@Geodesic "
+                "contains the images of points of the original, and for the class with dual data (ConvexPolygon with a supplied functional, any invertible A) the image functional "
+                "vanishes on the images of the dual hyperplane, keeps all vertices on one side, and satisfies the action laws"),
     Clause("apply_corr", "corr", gen_apply, run_apply, judge_apply, lean=lean_apply, site="projective.Transformation.apply",
            budget={"quick": 396, "thorough": 5000},
            what="T.apply(X, mode) for each of the 11 kinds (objects built by the library, their primary and derived data sent exactly), arbitrary dyadic "
